@@ -85,6 +85,13 @@ def make(targets, timeout=1500, keep_going=True, force=()):
     return p.returncode == 0, p.stdout
 
 
+MAX_VIOLATIONS = 400
+
+
+class TooManyViolations(Exception):
+    pass
+
+
 _THM = re.compile(r"^\s*(Theorem|Lemma|Example|Corollary)\s+([A-Za-z0-9_']+)", re.M)
 
 
@@ -324,6 +331,10 @@ class Run:
     def violation(self, clause, case, observed, expected=None, what=""):
         self.violations.append({"clause": clause, "case": case, "observed": observed,
                                 "expected": expected, "what": what})
+        if len(self.violations) >= MAX_VIOLATIONS:
+            # a tree that fails this often needs no further exploration: on broken code some generators feed on their own
+            # output (ever longer messages, ever more cases) -- stop and report what there is
+            raise TooManyViolations()
 
     def mismatch(self, unit, case, impl, model=None):
         self.mismatches.append({"unit": unit, "case": case, "impl": impl, "model": model})
